@@ -18,7 +18,17 @@ PROPERTY = 'C13'
 LEAN_TARGETS = ['CpProofs.C13', 'drv_c13']
 DRIVER = 'drv_c13'
 THEOREMS = [
+    # (a) RamSession interleavings, any number of threads, any schedule
+    'CpProofs.C13.C13_mutex_no_sweep',
     'CpProofs.C13.C13_mutex_full_orig_false',
+    'CpProofs.C13.C13_lost_update_orig',
+    'CpProofs.C13.C13_release_error_orig',
+    'CpProofs.C13.C13_blocked_forever_orig',
+    'CpProofs.C13.C13_mutex_full_recheck',
+    'CpProofs.C13.C13_no_lost_update',
+    'CpProofs.C13.C13_no_release_error',
+    'CpProofs.C13.C13_released_ram',
+    'CpProofs.C13.C13_no_deadlock',
 ]
 LEVEL = 'proof'
 TECHNIQUE = ('Lean 4 proof: inductive invariants over the step relation of an interleaving model (any number of '
